@@ -2,7 +2,9 @@ package main
 
 import (
 	"fmt"
+	"math/rand"
 	"os"
+	"sync"
 
 	segment "github.com/blevesearch/scorch_segment_api/v2"
 
@@ -11,7 +13,10 @@ import (
 	"verif/harness/zx"
 )
 
-func init() { workloads["C08"] = c08 }
+func init() {
+	workloads["C08"] = c08
+	workloads["C08c"] = c08conc
+}
 
 // C08 — dictionary enumeration, counts, Contains, Cardinality over all
 // provenances (built / re-opened / merged once / merged twice).
@@ -124,3 +129,64 @@ func lastField(m *model.Seg) string {
 }
 
 var _ segment.Segment
+
+// c08conc: many goroutines enumerate the dictionaries of a fresh (cold) shared
+// segment at once (race flavour): every enumeration must equal the model.
+func c08conc(c *Ctx) {
+	n := c.N(48, 480)
+	for i := 0; i < n; i++ {
+		if !c.Mine(i) {
+			continue
+		}
+		rng := c.Rng(i)
+		b := model.Gen(rng, []string{"wide", "small", "mid"}[i%3], model.GenOpts{NoBig: true})
+		m := model.Build(b)
+		id := fmt.Sprintf("q%d", i)
+		if !c.Case(id, caseDesc{Docs: len(b.Docs), FP: fpString(b.Fingerprint())}) {
+			continue
+		}
+		zx.SetChunkMode(1026)
+		guard(c.R, id, func() {
+			s, _, err := zx.Build(b)
+			if err != nil {
+				c.R.Fail("build-err", "%s: %v", id, err)
+				return
+			}
+			defer s.Close()
+			p := c.Scratch.Path("c08c")
+			defer os.Remove(p)
+			if err := zx.Persist(s, p); err != nil {
+				c.R.Fail("persist-err", "%s: %v", id, err)
+				return
+			}
+			o, err := zx.Open(p)
+			if err != nil {
+				c.R.Fail("open-err", "%s: %v", id, err)
+				return
+			}
+			defer o.Close()
+			var wg sync.WaitGroup
+			start := make(chan struct{})
+			for j := 0; j < 8; j++ {
+				grng := rand.New(rand.NewSource(rng.Int63()))
+				wg.Add(1)
+				go func(j int, grng *rand.Rand) {
+					defer wg.Done()
+					<-start
+					tgt := segment.Segment(s)
+					if j%2 == 1 {
+						tgt = o
+					}
+					guard(c.R, fmt.Sprintf("%s g%d", id, j), func() {
+						oracle.CheckDictionary(c.R, fmt.Sprintf("%s g%d", id, j), tgt, m, grng, true)
+					})
+				}(j, grng)
+			}
+			close(start)
+			wg.Wait()
+			c.R.Inc("dict_concurrent_rounds", 1)
+		})
+		c.Distinct(b.Fingerprint())
+		c.End()
+	}
+}
